@@ -7,9 +7,10 @@ from rimu import options, spans
 # Matches a line starting with a macro invocation. $1 = macro invocation.
 MATCH_LINE = re.compile(r'^({(?:[\w\-]+)(?:[!=|?](?:|.*?[^\\]))?}).*$')
 # Match single-line macro definition. $1 = name, $2 = delimiter, $3 = value.
-LINE_DEF = re.compile(r"^\\?{([\w\-]+\??)}\s*=\s*'(.*)'$")
+# (No leading `\\?`: in an escaped definition the backslash escapes the invocation it starts with, as in any other text.)
+LINE_DEF = re.compile(r"^{([\w\-]+\??)}\s*=\s*'(.*)'$")
 # Match multi-line macro definition literal value open delimiter. $1 is first line of macro.
-DEF_OPEN = re.compile(r"^\\?{[\w\-]+\??}\s*=\s*'(.*)$")
+DEF_OPEN = re.compile(r"^{[\w\-]+\??}\s*=\s*'(.*)$")
 DEF_CLOSE = re.compile(r"^(.*)'$")
 
 
